@@ -102,6 +102,31 @@ Definition tp_update_region (tp_fixed : bool) (upd : Z -> Z -> list tp_seg) (pre
     let s3 := tp_merge_all tp_fixed (if prefer then excs else incs) (negb prefer) s2 in
     tp_merge_all tp_fixed (if prefer then incs else excs) prefer s3.
 
+(* ---- the second form of UpdateRegion (repo_patches/C08-merge-references-every-round.diff), selected by [ma] ----
+   ma = false: "if (end < GetValidEnd()) return;" - a call that has no stretch of the period's own to compute does nothing;
+   ma = true : "if (end < GetValidEnd()) extend = false;" - such a call still merges the included / excluded periods,
+               each of their segments cut off at valid_end (Merge(timeperiod, include, clip = true): "if (sbegin >= limit)
+               continue; if (send > limit) send = limit;" with limit = GetValidEnd() read in every iteration).
+   Everything else is the function above. *)
+Definition tp_merge_clip (tp_fixed : bool) (other : list tp_seg) (include : bool) (s : tp_st) : tp_st :=
+  fold_left (fun acc sg =>
+               let lim := tp_ve_num acc in
+               if lim <=? fst sg then acc
+               else let e := if lim <? snd sg then lim else snd sg in
+                    if include then tp_add (fst sg) e acc else tp_remove tp_fixed (fst sg) e acc) other s.
+
+Definition tp_merge_clip_all (tp_fixed : bool) (others : list (list tp_seg)) (include : bool) (s : tp_st) : tp_st :=
+  fold_left (fun acc o => tp_merge_clip tp_fixed o include acc) others s.
+
+Definition tp_merge_only (tp_fixed prefer : bool) (incs excs : list (list tp_seg)) (s : tp_st) : tp_st :=
+  tp_merge_clip_all tp_fixed (if prefer then incs else excs) prefer
+    (tp_merge_clip_all tp_fixed (if prefer then excs else incs) (negb prefer) s).
+
+Definition tp_update_region_ma (tp_fixed ma : bool) (upd : Z -> Z -> list tp_seg) (prefer : bool)
+           (incs excs : list (list tp_seg)) (b e : Z) (clear : bool) (s : tp_st) : tp_st :=
+  if negb clear && (e <? tp_ve_num s) then (if ma then tp_merge_only tp_fixed prefer incs excs s else s)
+  else tp_update_region tp_fixed upd prefer incs excs b e clear s.
+
 (* IsInside *)
 Definition tp_in_seg (t : Z) (sg : tp_seg) : bool := (fst sg <=? t) && (t <? snd sg).
 Definition tp_inside_segs (l : list tp_seg) (t : Z) : bool := existsb (tp_in_seg t) l.
